@@ -280,7 +280,7 @@ def main(argv=None):
         wall_s=round(wall, 2),
         violations=len(unlisted),
     )
-    if not replay_spec:
+    if not replay_spec and os.path.realpath(repo_dir) == "/repo":  # evidence only ever describes /repo itself
         with open(os.path.join(HERE, "evidence", f"{prop}.json"), "w") as f:
             json.dump(ev, f, indent=1, default=str)
             f.write("\n")
